@@ -250,7 +250,8 @@ Qed.
 
 Definition invL (tr : list (op * res)) (h : handler) : Prop :=
   invA tr h /\
-  forall la, tLastAck (aTr (hApp h)) = Some la -> exists lo hi, wfd lo hi la.
+  forall la, tLastAck (aTr (hApp h)) = Some la ->
+    (exists lo hi, wfd lo hi la) /\ (forall q, inR q la -> recvd tr 2 q).
 
 Lemma invL_init : invL [] newHandler.
 Proof. split; [apply invA_init |]. intros la H. discriminate. Qed.
@@ -258,11 +259,16 @@ Proof. split; [apply invA_init |]. intros la H. discriminate. Qed.
 Lemma invL_step : forall tr h o, invL tr h -> invL (tr ++ [(o, snd (step h o))]) (fst (step h o)).
 Proof.
   intros tr h o (HA & HL). split; [now apply invA_step |].
-  intros la Hla. destruct (step_lastAck h o) as [E | [E | (n & E)]]; rewrite E in Hla; [eauto | |].
-  - inversion Hla; subst la. destruct (HA 2%nat (tHist (aTr (hApp h))) eq_refl) as (((hi & Hwf) & _) & _).
-    exists (deletedBelow (tHist (aTr (hApp h))) - 1), hi. unfold backward. now apply wfa_wfd_rev.
+  intros la Hla. destruct (step_lastAck h o) as [E | [E | (n & E)]]; rewrite E in Hla.
+  - destruct (HL la Hla) as (Hw & Hs). split; [assumption |]. intros q Hq. apply recvd_app_l. auto.
+  - inversion Hla; subst la. destruct (HA 2%nat (tHist (aTr (hApp h))) eq_refl) as (((hi & Hwf) & _) & Hs).
+    split.
+    + exists (deletedBelow (tHist (aTr (hApp h))) - 1), hi. unfold backward. now apply wfa_wfd_rev.
+    + intros q Hq. apply recvd_app_l. apply Hs. unfold backward in Hq. now rewrite inR_rev in Hq.
   - destruct (tLastAck (aTr (hApp h))) as [la0 |]; [| discriminate]. inversion Hla; subst la.
-    destruct (HL la0 eq_refl) as (lo & hi & Hwf). exists lo, hi. now apply wfd_firstn.
+    destruct (HL la0 eq_refl) as ((lo & hi & Hwf) & Hs). split.
+    + exists lo, hi. now apply wfd_firstn.
+    + intros q Hq. apply recvd_app_l. apply Hs. eapply inR_firstn; eauto.
 Qed.
 
 Lemma invL_run : forall ops, invL (trace newHandler ops) (fst (run newHandler ops)).
@@ -281,6 +287,6 @@ Lemma ack_queued_when_missing : forall ops pn ecn t la l,
   aAckQueued (fst (app_recv a pn ecn t true)) = true.
 Proof.
   intros ops pn ecn t la l a Hla Hl Hib Hpl Hn Hok.
-  destruct (invL_run ops) as (_ & HL). destruct (HL la Hla) as (lo & hi & Hwf).
+  destruct (invL_run ops) as (_ & HL). destruct (HL la Hla) as ((lo & hi & Hwf) & _).
   apply app_recv_missing; [assumption |]. eapply isMissing_true; eauto.
 Qed.
